@@ -85,6 +85,20 @@ ELIF_TS = '''function route(kind: string, items: number[][]): number[][] {
   return items;
 }
 '''
+MAIN_PY = '''import sys
+
+
+def report(values):
+    print("values", values)
+    return len(values)
+
+
+if __name__ == "__main__":
+    print("starting")
+    count = report(sys.argv)
+    if count:
+        print("done", count)
+'''
 SRP_CFG = "srp:\n  max_loc: 12\n  max_methods: 50\n  check_keywords: false\n"
 BASES = [(b, C04.CONFIG) for b in C04.BASES] + [
     (("srp", "srp", "py", {"main.py": srp_boundary("py")}), C04.CONFIG + SRP_CFG),
@@ -92,6 +106,8 @@ BASES = [(b, C04.CONFIG) for b in C04.BASES] + [
     # if / elif / else chains and try / except / finally with branches exactly on and one above the nesting limit
     (("nesting", "nesting", "py", {"main.py": ELIF_PY}), C04.CONFIG),
     (("nesting", "nesting", "ts", {"main.ts": ELIF_TS}), C04.CONFIG),
+    # a script whose last statement is the `__main__` block (prints inside it are exempt, the one outside is not)
+    (("improper-logging", "print-statements", "py", {"main.py": MAIN_PY}), C04.CONFIG),
 ]
 
 
@@ -294,7 +310,7 @@ def run(chk) -> None:
     quick = chk.tier == "quick"
     drive.preload()
     chk.rule = ("edit sequences of length <= 2 (thorough: <= 3) over {blank, comment} x 4 positions (and, as single edits, x every line boundary of the file), trailing whitespace x 2 "
-                "positions, reindent, CRLF, BOM, appended unrelated code, renaming of local identifiers (enumerated by TLC from Edits.tla) x 25 "
+                "positions, reindent, CRLF, BOM, appended unrelated code, renaming of local identifiers (enumerated by TLC from Edits.tla) x 26 "
                 "linter x language bases; all rules linted before/after; non-trivial = base has findings; "
                 "distinct by (base, edit sequence)")
     chk.assumptions = ["comment lines are directive-free and indented like the following line; the probe files "
